@@ -21,6 +21,7 @@ def dispatch : String → Option (String → String)
   | "C12" => some Write.runLine
   | "C17" => some Config.runLine
   | "C13" => some Cfg.runLine
+  | "C14" => some EnvOrder.runLine
   | "C15" => some Panics.runLine
   | "C16" => some (fun l => if l.startsWith "(utf8" || l.startsWith "(mask2" then Utf8.runLine l else Slices.runLine l)
   | _ => none
